@@ -40,7 +40,7 @@ for d in sorted([x for x in os.listdir(V + '/seeded') if re.match(r'C\d+-\d+$', 
     status = 'MISSED'
     for cid in [pid] + extra.get(d, []):
         o = sh('VERIF_REPO=%s python3 %s/sa/check.py %s' % (W, V, cid)).stdout
-        vs = sorted(set(re.findall(r'^violation: (C\d+-R\d+)', o, re.M)))
+        vs = sorted(set(re.findall(r'^violation: (C\d+-R\w+)', o, re.M)))
         if 'ANALYSIS-BROKEN' in o and not vs:
             fired.append('%s: analysis broken' % cid)
         fired += vs
